@@ -86,7 +86,7 @@ type childResult struct {
 	ApisTotal  int
 	ApisOK     int // spec APIs whose valid request parsed to a spec API (first pass, shard 0 only)
 	ApisMissed []string
-	Hang       *input
+	Upto       int // inputs [Start, Upto) are covered by this (partial) result
 	Samples    []any
 }
 
@@ -403,7 +403,9 @@ func TestC38Child(t *testing.T) {
 	if len(c.g.apis) == 0 {
 		t.Fatalf("%v has no enabled APIs", cb)
 	}
-	finish := func() {
+	finish := func(upto int, file string) {
+		c.res.Upto = upto
+		c.res.Nontrivial, c.res.Violations = nil, nil
 		for k := range c.nt {
 			c.res.Nontrivial = append(c.res.Nontrivial, k)
 		}
@@ -417,8 +419,8 @@ func TestC38Child(t *testing.T) {
 			c.res.Violations = append(c.res.Violations, *c.viol[k])
 		}
 		b, _ := json.Marshal(c.res)
-		os.WriteFile(prefix+".done.tmp", b, 0o644)
-		os.Rename(prefix+".done.tmp", prefix+".done")
+		os.WriteFile(prefix+file+".tmp", b, 0o644)
+		os.Rename(prefix+file+".tmp", prefix+file)
 	}
 	// per-input watchdog: names the input and leaves
 	go func() {
@@ -457,9 +459,12 @@ func TestC38Child(t *testing.T) {
 	} else {
 		for i := start; i < start+n; i++ {
 			run(c.g.make(seed, i))
+			if (i-start)%250 == 249 {
+				finish(i+1, ".part")
+			}
 		}
 	}
-	finish()
+	finish(start+n, ".done")
 }
 
 // ------------------------------------------------------------------------------------------------ parent
@@ -554,9 +559,11 @@ func TestC38(t *testing.T) {
 		st.success += r.Success
 		st.fail += r.CleanFail
 		st.compared += r.Compared
-		if r.Start == 0 {
-			st.apisTotal, st.apisOK, st.missed = r.ApisTotal, r.ApisOK, r.ApisMissed
+		if r.ApisTotal > st.apisTotal {
+			st.apisTotal = r.ApisTotal
 		}
+		st.apisOK += r.ApisOK
+		st.missed = append(st.missed, r.ApisMissed...)
 		for k, v := range r.Ops {
 			opsSeen[k] += v
 		}
@@ -576,8 +583,9 @@ func TestC38(t *testing.T) {
 			run.Sample(s)
 		}
 	}
-	readDone := func(prefix string) *childResult {
-		b, err := os.ReadFile(prefix + ".done")
+	brokenChildren := 0
+	readResult := func(path string) *childResult {
+		b, err := os.ReadFile(path)
 		if err != nil {
 			return nil
 		}
@@ -596,76 +604,94 @@ func TestC38(t *testing.T) {
 		return in, true
 	}
 
+	shardEnv := func(j shardJob, isolate string) []string {
+		return []string{"VERIF_C38_SHARD=" + fmt.Sprintf("%s|%s|%d|%d|%s", j.cb.Spec, j.cb.Iface, j.start, j.n, j.prefix), "VERIF_C38_ISOLATE=" + isolate}
+	}
+	siteRe := regexp.MustCompile(`(?m)(fatal error: [^\n]{0,70}|panic: [^\n]{0,70}|FTL [^\n=]{0,70})`)
+	// a crashed / hung child names its input; that input is re-run alone, then the unfinished parts of the shard are run
+	runShard := func(j shardJob) {
+		queue := []shardJob{j}
+		crashes := 0
+		for len(queue) > 0 {
+			cur := queue[0]
+			queue = queue[1:]
+			exit, timedOut := runChild(shardEnv(cur, ""), cur.prefix+".log", overall)
+			if r := readResult(cur.prefix + ".done"); r != nil && exit == 0 {
+				merge(r)
+				continue
+			}
+			crashes++
+			in, ok := readCur(cur.prefix)
+			_, hangErr := os.Stat(cur.prefix + ".hang")
+			kind := "fatal-exit"
+			if hangErr == nil || timedOut {
+				kind = "hang"
+			}
+			if !ok {
+				mu.Lock()
+				brokenChildren++
+				run.Inconclusive(fmt.Sprintf("child %s exited %d without result and without a current input; log tail: %s", filepath.Base(cur.prefix), exit, tail(cur.prefix+".log", 600)))
+				mu.Unlock()
+				continue
+			}
+			upto := cur.start
+			if part := readResult(cur.prefix + ".part"); part != nil && part.Upto > cur.start && part.Upto <= in.Idx {
+				merge(part)
+				upto = part.Upto
+			}
+			// reproduce alone
+			iso := shardJob{cur.cb, 0, 0, cur.prefix + ".iso"}
+			os.Rename(cur.prefix+".cur", iso.prefix+".input")
+			exit2, timedOut2 := runChild(shardEnv(iso, iso.prefix+".input"), iso.prefix+".log", hangLimit+60*time.Second)
+			_, hang2 := os.Stat(iso.prefix + ".hang")
+			r2 := readResult(iso.prefix + ".done")
+			switch {
+			case r2 != nil && exit2 == 0:
+				merge(r2)
+				mu.Lock()
+				run.Inconclusive(fmt.Sprintf("%s in shard %s at input #%d (%s) did not reproduce when the input was parsed alone", kind, filepath.Base(cur.prefix), in.Idx, in.Op))
+				mu.Unlock()
+			case hang2 == nil || timedOut2:
+				mu.Lock()
+				run.Eval(1)
+				run.Violation("hang-in-parse", cur.cb.Iface+"|"+in.Op, fmt.Sprintf("ParseMsg did not return within %s (reproduced with the input alone)", hangLimit), map[string]any{"spec": cur.cb.Spec, "interface": cur.cb.Iface, "input": witnessInput(in)})
+				mu.Unlock()
+			default:
+				lg := tail(iso.prefix+".log", 6000)
+				site := "unknown"
+				if m := siteRe.FindString(tail(iso.prefix+".log", 1<<20)); m != "" {
+					site = strings.TrimSpace(strings.TrimSuffix(strings.TrimSpace(m), "StackTrace"))
+				}
+				mu.Lock()
+				run.Eval(1)
+				run.Violation("fatal-in-parse", cur.cb.Iface+"|"+site, fmt.Sprintf("the process died (exit %d) while parsing; reproduced with the input alone", exit2), map[string]any{"spec": cur.cb.Spec, "interface": cur.cb.Iface, "input": witnessInput(in), "log_tail": lg})
+				mu.Unlock()
+			}
+			end := cur.start + cur.n
+			if crashes > 30 {
+				mu.Lock()
+				run.Inconclusive(fmt.Sprintf("shard %s: more than 30 crashed/hung children, inputs #%d..#%d not run", filepath.Base(j.prefix), upto, end-1))
+				mu.Unlock()
+				break
+			}
+			if in.Idx >= cur.start && in.Idx < end {
+				if in.Idx > upto {
+					queue = append(queue, shardJob{cur.cb, upto, in.Idx - upto, fmt.Sprintf("%s.s%d", j.prefix, upto)})
+				}
+				if end > in.Idx+1 {
+					queue = append(queue, shardJob{cur.cb, in.Idx + 1, end - in.Idx - 1, fmt.Sprintf("%s.s%d", j.prefix, in.Idx+1)})
+				}
+			}
+		}
+	}
 	jobCh := make(chan shardJob)
 	var wg sync.WaitGroup
-	brokenChildren := 0
 	for w := 0; w < par; w++ {
 		wg.Add(1)
 		go func() {
 			defer wg.Done()
 			for j := range jobCh {
-				env := []string{"VERIF_C38_SHARD=" + fmt.Sprintf("%s|%s|%d|%d|%s", j.cb.Spec, j.cb.Iface, j.start, j.n, j.prefix), "VERIF_C38_ISOLATE="}
-				exit, timedOut := runChild(env, j.prefix+".log", overall)
-				if r := readDone(j.prefix); r != nil && exit == 0 {
-					merge(r)
-					continue
-				}
-				// the child did not finish: the last input written to disk is the suspect
-				in, ok := readCur(j.prefix)
-				_, hangErr := os.Stat(j.prefix + ".hang")
-				kind := "fatal-exit"
-				if hangErr == nil || timedOut {
-					kind = "hang"
-				}
-				if !ok {
-					mu.Lock()
-					brokenChildren++
-					run.Inconclusive(fmt.Sprintf("child %s exited %d without result and without a current input; log tail: %s", filepath.Base(j.prefix), exit, tail(j.prefix+".log", 600)))
-					mu.Unlock()
-					continue
-				}
-				// reproduce alone
-				isoPrefix := j.prefix + ".iso"
-				os.Rename(j.prefix+".cur", isoPrefix+".input")
-				env2 := []string{"VERIF_C38_SHARD=" + fmt.Sprintf("%s|%s|%d|%d|%s", j.cb.Spec, j.cb.Iface, 0, 0, isoPrefix), "VERIF_C38_ISOLATE=" + isoPrefix + ".input"}
-				exit2, timedOut2 := runChild(env2, isoPrefix+".log", hangLimit+60*time.Second)
-				_, hang2 := os.Stat(isoPrefix + ".hang")
-				r2 := readDone(isoPrefix)
-				mu.Lock()
-				switch {
-				case r2 != nil && exit2 == 0:
-					run.Inconclusive(fmt.Sprintf("%s in shard %s at input #%d (%s) did not reproduce when the input was parsed alone", kind, filepath.Base(j.prefix), in.Idx, in.Op))
-					mu.Unlock()
-					merge(r2)
-					mu.Lock()
-				case hang2 == nil || timedOut2:
-					run.Violation("hang-in-parse", j.cb.Iface+"|"+in.Op, fmt.Sprintf("ParseMsg did not return within %s (reproduced with the input alone)", hangLimit), map[string]any{"spec": j.cb.Spec, "interface": j.cb.Iface, "input": witnessInput(in)})
-				default:
-					lg := tail(isoPrefix+".log", 3000)
-					site := "unknown"
-					if m := regexp.MustCompile(`(?m)^(fatal error: [^\n]+|panic: [^\n]+)`).FindString(lg); m != "" {
-						site = m
-						if len(site) > 80 {
-							site = site[:80]
-						}
-					}
-					run.Violation("fatal-in-parse", j.cb.Iface+"|"+site, fmt.Sprintf("the process died (exit %d) while parsing; reproduced with the input alone", exit2), map[string]any{"spec": j.cb.Spec, "interface": j.cb.Iface, "input": witnessInput(in), "log_tail": lg})
-				}
-				mu.Unlock()
-				// the rest of the shard after the suspect input still has to run
-				if rest := j.start + j.n - (in.Idx + 1); rest > 0 && in.Idx >= j.start {
-					nj := shardJob{j.cb, in.Idx + 1, rest, j.prefix + fmt.Sprintf(".r%d", in.Idx+1)}
-					envR := []string{"VERIF_C38_SHARD=" + fmt.Sprintf("%s|%s|%d|%d|%s", nj.cb.Spec, nj.cb.Iface, nj.start, nj.n, nj.prefix), "VERIF_C38_ISOLATE="}
-					if ex, _ := runChild(envR, nj.prefix+".log", overall); ex == 0 {
-						if r := readDone(nj.prefix); r != nil {
-							merge(r)
-						}
-					} else {
-						mu.Lock()
-						run.Inconclusive(fmt.Sprintf("remainder of shard %s (from input #%d) did not complete (exit %d)", filepath.Base(j.prefix), nj.start, ex))
-						mu.Unlock()
-					}
-				}
+				runShard(j)
 			}
 		}()
 	}
